@@ -20,7 +20,9 @@ def supergraph(F, entry, opaque=None, tag='', max_depth=8):
     k = (id(F), entry, tag, max_depth)
     if opaque is loop_opaque:
         # "contains a loop" is a property of the callee including its private helpers (a loop may be extracted)
-        opaque = lambda t, b: has_loop_deep(F, b)
+        # - but a loop-free dispatcher that chooses between several looping helpers is analysed inlined (the choice is
+        # what the rules fold), with the helpers it dispatches to staying opaque
+        opaque = lambda t, b: has_loop(b) or (has_loop_deep(F, b) and _loopy_callees(F, b) <= 1)
     if k not in _sg_cache:
         if len(_sg_cache) > 64:
             _sg_cache.clear()
@@ -168,6 +170,17 @@ def has_loop_deep(F, b, _stack=None):
                 break
     _deep_cache[k] = r
     return r
+
+
+def _loopy_callees(F, b):
+    out = set()
+    for bl in b['blocks']:
+        t = bl['term']
+        if t['k'] == 'call':
+            cb = F.bodies.get(t.get('resolved') or t.get('fn'))
+            if cb is not None and has_loop_deep(F, cb):
+                out.add(cb['id'])
+    return len(out)
 
 
 def loop_opaque(t, b):
